@@ -38,7 +38,7 @@ type Case struct {
 
 func lossy(v []byte) bool {
 	s := string(v)
-	return strings.Contains(s, ";") || strings.HasPrefix(s, " ") || strings.HasSuffix(s, " ") ||
+	return strings.ContainsAny(s, ";\r\n") || strings.HasPrefix(s, " ") || strings.HasSuffix(s, " ") ||
 		(len(s) >= 2 && s[0] == '"' && s[len(s)-1] == '"')
 }
 
